@@ -655,3 +655,54 @@ def rule_recursive_alternative_last(ctx, rep: Report, rid="Z5"):
     if n < 2:
         raise AnalysisError(f"{rep.prop}/{rid}: only {n} alternation(s) with a self-recursive alternative found (2 expected: "
                             f"template arguments, namespace content)")
+
+
+def rule_quoted_literals_are_tokens(ctx, rep: Report, rid="G12"):
+    """In a free-text expression (default values), a C++ string literal and a character literal are each one token, whatever
+    they contain: for every quote character with which the catch-all word alternative can start (`"`, `'`), the same
+    alternation offers a QuotedString of that quote (before the word, if the alternation takes the first match).
+    Without it `char open = '('` is read up to the quote as a word and the bracket inside becomes structure: the
+    rest of the declaration is swallowed into the default or the file is rejected."""
+    g = ctx.grammar
+    root, _ = parse_root(ctx)
+    n = 0
+    for node in sorted(g.reachable(root), key=lambda x: (x.src, x.uid)):
+        if node.kind not in ("Or", "MatchFirst"):
+            continue
+        def flat(nd):
+            out = []
+            for c in nd.children:
+                if c.kind == nd.kind and not c.label:
+                    out += flat(c)            # `a ^ b ^ c` is built as Or(Or(a, b), c)
+                else:
+                    out.append(c)
+            return out
+        alts = flat(node)
+        words = []
+        for i, c in enumerate(alts):
+            if c.kind == "Word":
+                args = c.attrs.get("args", [])
+                sets = [a for a in args[:1] if isinstance(a, str) and a != "<expr>"]
+                excl = c.attrs.get("excludeChars") or ""
+                if sets:
+                    first = set(sets[0]) - set(excl if isinstance(excl, str) else "")
+                    if first & set("\"'"):
+                        words.append((i, c, first))
+        if not words:
+            continue
+        quoted = {}
+        for i, c in enumerate(alts):
+            if c.kind == "QuotedString":
+                q = (c.attrs.get("args") or [None])[0]
+                if isinstance(q, str):
+                    quoted.setdefault(q, i)
+        for wi, w, first in words:
+            for q in sorted(first & set("\"'")):
+                n += 1
+                has = q in quoted and (node.kind == "Or" or quoted[q] < wi)
+                rep.add(rid, f"quoted literal:{ctx_label(g, node)}:a literal in {q} quotes is one token", has,
+                        f"the word alternative can start with {q} but the alternation has no QuotedString({q!r})"
+                        f"{' in front of it' if q in quoted else ''}: a literal such as {q}({q} or {q},{q} is cut at the delimiter inside the quotes and the "
+                        f"following arguments are swallowed or the file is rejected", f"{w.src[0]}:{w.src[1]}")
+    if n < 2:
+        raise AnalysisError(f"{rep.prop}/{rid}: only {n} quote / word pairs found in the grammar (2 expected)")
